@@ -25,7 +25,7 @@ type e2spec struct {
 }
 
 var engine2Tiers = map[string]map[string]e2spec{
-	"C05": {"quick": {28, 16000, 150, 234}, "thorough": {96, 300000, 1500, 832}},
+	"C05": {"quick": {28, 16000, 150, 416}, "thorough": {96, 300000, 1500, 832}},
 	"C15": {"quick": {32, 9600, 150, 0}, "thorough": {96, 200000, 1500, 0}},
 	"C20": {"quick": {28, 16000, 200, 156}, "thorough": {64, 300000, 1800, 640}},
 }
